@@ -207,6 +207,62 @@ def main():
                 continue
             if run_history(rac, ops):
                 rac.case(("loads",) + tuple(map(repr, ops)), nontrivial=True, sample=[G.opstr(o) for o in ops])
+    rac.section("failed-loads", "a Manager.load whose k-th entry cannot be evaluated (unknown name, division by zero in the text, unknown container) raises; "
+                "the caller catches it and goes on: whatever definitions the manager then reports, its indices equal F(those tasks), verify() passes and "
+                "a follow-up assignment leaves the data a manager rebuilt from dump() over equal data produces", "5 prior states x 6 dumps x failing position 0..2 x overwrite")
+    FL = '''
+import xdeps, copy
+def mk(prior):
+    d = dict(a=1.0, b=2.0, c=3.0, e=4.0, g=5.0, n=dict(x=0.5, y=1.5))
+    m = xdeps.Manager(); r = m.ref(d, "d")
+    for lhs, rhs in prior:
+        exec(lhs + " = " + rhs, dict(d=r))
+    return d, m, r
+'''
+    fenv = {}
+    exec(FL, fenv)
+    priors = [[], [("d['b']", "d['a'] * 2")], [("d['b']", "d['a'] * 2"), ("d['c']", "d['b'] + d['a']")],
+              [("d['n']['y']", "d['n']['x'] + d['a']"), ("d['c']", "d['n']['y'] * 2")], [("d['c']", "d['a'] + 1"), ("d['e']", "d['c'] * d['a']")]]
+    goods = [[("d['b']", "(d['a'] + 1)"), ("d['c']", "(d['a'] * 3)")], [("d['c']", "(d['b'] + d['a'])"), ("d['e']", "(d['a'] - 1)")],
+             [("d['e']", "(d['a'] * 2)"), ("d['g']", "(d['e'] + d['a'])")], [("d['n']['y']", "(d['a'] * 4)"), ("d['b']", "(d['n']['y'] + 1)")],
+             [("d['b']", "(d['c'] + 1)"), ("d['g']", "(d['b'] * d['a'])")], [("d['c']", "(d['a'] * 5)"), ("d['c']", "(d['a'] * 6)")]]
+    bads = [("d['g']", "(nosuchname + 1)"), ("zz['g']", "(d['a'] + 1)"), ("d['g']", "(1 // 0)")]
+    for pi, prior in enumerate(priors):
+        for gi, good in enumerate(goods):
+            for pos in range(len(good) + 1):
+                for ow in (True, False):
+                    bad = bads[(pi + gi + pos) % len(bads)]
+                    dump = good[:pos] + [bad] + good[pos:]
+                    body = (f"d, m, r = mk({prior!r})\ntry:\n    m.load({dump!r}, overwrite={ow})\n    raise SystemExit('load did not raise')\nexcept (NameError, ZeroDivisionError, KeyError):\n    pass\n"
+                            f"r['a'] = 2.5\nd2, m2, r2 = mk([])\nd2.update(copy.deepcopy({{k: v for k, v in d.items()}}))\n"
+                            "m2.load(m.dump())\nr['a'] = -3.0; r2['a'] = -3.0\nprint(d, d2)\nassert d == d2\n")
+                    rac.case((pi, gi, pos, ow), sample=dict(prior=prior, dump=dump, overwrite=ow))
+                    try:
+                        d, m, r = fenv["mk"](prior)
+                        try:
+                            m.load(dump, overwrite=ow)
+                            rac.fail(f"failed-load noraise {pi} {gi} {pos} {ow}", f"C03 load({dump}) did not raise", PRELUDE + FL + body, "Manager.load")
+                            continue
+                        except (NameError, ZeroDivisionError, KeyError):
+                            pass
+                        dd = diff_indices(indices(m), F(m))
+                        if dd:
+                            rac.fail(f"failed-load idx {pi} {gi} {pos} {ow}", f"C03 after {prior} and a load({dump}, overwrite={ow}) that raised at entry {pos}: "
+                                     f"indices != F(registered tasks): {dd[:3]}", PRELUDE + FL + body + IDX_TAIL, "Manager.load")
+                            continue
+                        m.verify()
+                        r["a"] = 2.5
+                        d2, m2, r2 = fenv["mk"]([])
+                        d2.update(copy.deepcopy(d))
+                        m2.load(m.dump())
+                        r["a"] = -3.0
+                        r2["a"] = -3.0
+                        if repr(d) != repr(d2):
+                            rac.fail(f"failed-load follow {pi} {gi} {pos} {ow}", f"C03 after {prior} and a failed load({dump}): a := -3.0 leaves {d}, a manager "
+                                     f"rebuilt from the reported definitions leaves {d2}", PRELUDE + FL + body, "Manager.load")
+                    except Exception as ex:     # noqa
+                        rac.fail(f"failed-load exc {pi} {gi} {pos} {ow}", f"C03 after {prior} and a failed load({dump}, overwrite={ow}): {type(ex).__name__}: {ex}",
+                                 PRELUDE + FL + body + IDX_TAIL, "Manager.load")
     rac.section("random", "random histories of length 6..16 (seeded; every other one with definitions that read a nested container as a whole "
                 "and containers replaced by value), same checks", "150 quick / 3000 thorough", exhaustive=False)
     for _k in range(150 if quick else 3000):
